@@ -530,12 +530,13 @@ theorem sched_reachable {d d' : DState} {st : SStep} {ev : String} (h : Reachabl
 
 example : (sstep dinit (.load [0, 1] pA [])).isSome = true := by decide
 
-/-- the proxy loop of the schedule interpreter never runs out of fuel: the wire syntax limits
+/-- the proxy loop of the schedule interpreter over static upstreams (a handler without a dynamic
+    source, or an iteration in which the source failed: no holder) never runs out of fuel: the wire syntax limits
     `retries` to 8 and the interpreter passes `fuel0 = 12` (see `FuelLemmas.advance_never_runs_out_of_fuel`
     for the general bound `retries still allowed < fuel`) -/
 theorem sched_never_runs_out_of_fuel (d : DState) (r : Nat) (q : Req) (hq : d.s.reqs[r]? = some q)
-    (hpc : q.pc = .start) (hcfg : ∃ cs, d.s.cfgs[q.cfg]? = some cs) (hdyn : q.par.dynamic = false)
-    (hr : q.par.retries ≤ 8) : (advance fuel0 d r).isSome = true :=
+    (hpc : q.pc = .start) (hcfg : ∃ cs, d.s.cfgs[q.cfg]? = some cs)
+    (hdyn : q.par.dynamic = false ∨ q.holder = none) (hr : q.par.retries ≤ 8) : (advance fuel0 d r).isSome = true :=
   advance_never_runs_out_of_fuel fuel0 d r q hq hpc hcfg hdyn (by simp only [fuel0]; omega)
 
 example : ((sstep dinit (.load [0, 1] { pA with retries := 8 } [])).bind fun x =>
